@@ -5,6 +5,7 @@ import SieveModel.Generated.Tables
 import SieveModel.Generated.LexRules
 import SieveModel.Lemmas.Brackets
 import SieveModel.Lemmas.Roles
+import SieveModel.Lemmas.Typed
 /-!
 # C01 — the parser accepts exactly the valid scripts
 
@@ -26,7 +27,15 @@ the parse suite).  Proved here, for every table and every input:
   those names (so: a test in command position, an action in test position, a block after an action and
   `elsif`/`else` not after `if`/`elsif` are all rejected, whatever surrounds them).  The relation is
   threaded through every parser step by `Lemmas/StackThread.lean`; the only condition on the table is
-  that names identify definitions, discharged for the live table by the kernel.
+  that names identify definitions, discharged for the live table by the kernel;
+  `accepted_scripts_have_correctly_typed_arguments` — in the tree of an accepted script every node's definition was
+  looked up for an identifier token of the script; every scalar argument is the text of a string / multi-line / number /
+  tag token of the script, recorded under a slot of that definition whose declared types admit that kind of token and whose
+  value list (if any) contains it, letter case aside; every
+  bracketed list sits in a slot that admits string lists and has no value list; every tag parameter sits under a slot whose `extra_arg` admits
+  its kind and, where it lists values, lists it (so an ill-typed, illegal or invented argument, or a bad value for a tag's
+  parameter, is never part of an accepted tree).  Threaded by `Lemmas/TokThread.lean`; table
+  condition: the two slots `reassign_arguments` moves a value between have the same types (kernel-checked, live table).
 -/
 namespace C01
 
@@ -139,6 +148,33 @@ example : Show.outcome (sb "if true { keep; } else { stop; }")
       (Machine.parse Generated.builtinTable (sb "if true { keep; } else { stop; }"))
     = "accept (6966 A[test=t:(74727565 A[] E[] C[] H[]);] E[] C[(6b656570 A[] E[] C[] H[])] H[])(656c7365 A[] E[] C[(73746f70 A[] E[] C[] H[])] H[])" := by
   decide +kernel
+
+/-- the slots `hasflag` moves a value between carry the same types in the table regenerated from `/repo` -/
+theorem live_table_reassign_ok : Typed.TableT Generated.builtinTable := by decide +kernel
+
+/-- **typed arguments**: every argument of an accepted tree is a token of the script in a slot that admits its kind -/
+theorem accepted_scripts_have_correctly_typed_arguments (T : Table) (hT : Typed.TableT T) (text : Bytes) (prev : PState)
+    (r : List Node) (h : Machine.parse T text prev = .accept r) :
+    ∃ lr, Lex.lex text = some lr ∧ ∀ n ∈ r, Typed.NodeT (fun tok => tok ∈ lr.toks) T n :=
+  Typed.accepted_tree_typed hT text prev r h
+
+theorem accepted_scripts_have_correctly_typed_arguments_live (text : Bytes) (prev : PState) (r : List Node)
+    (h : Machine.parse Generated.builtinTable text prev = .accept r) :
+    ∃ lr, Lex.lex text = some lr ∧ ∀ n ∈ r, Typed.NodeT (fun tok => tok ∈ lr.toks) Generated.builtinTable n :=
+  Typed.accepted_tree_typed live_table_reassign_ok text prev r h
+
+/-- what `NodeT` says about one scalar argument, spelled out: its slot, its token, the admitted kind and the admitted value -/
+theorem typed_argument_facts (TokP : Tok → Prop) (T : Table) (name : Bytes) (args extra : List Arg) (children : List Node)
+    (c : List Bytes) (k : String) (raw : Bytes) (h : Typed.NodeT TokP T (.mk name args extra children c))
+    (ha : Arg.str k raw ∈ args) :
+    ∃ d, TokThread.Named TokP T d ∧ d.name = name ∧ ∃ slot ∈ d.args, slot.name = k ∧ Typed.valueIn slot raw ∧
+      ∃ tok t, TokP tok ∧ tok.text = raw ∧ Args.validType t slot.types = true ∧
+        (((tok.kind = .string ∨ tok.kind = .multiline) ∧ t = .string) ∨ (tok.kind = .number ∧ t = .number) ∨
+          (tok.kind = .tag ∧ t = .tag)) := by
+  cases h with
+  | mk _ _ _ _ _ d hnamed hname hargs hextra hkids htest htests =>
+    obtain ⟨slot, hs, hsn, hval, t, ⟨tok, htok, htext, hk⟩, hvt⟩ := hargs _ ha
+    exact ⟨d, hnamed, hname, slot, hs, hsn, hval, tok, t, htok, htext, hvt, hk⟩
 
 /-- non-vacuity of the nesting discipline: `( [ ] )` is balanced, `( [ ) ]` is not -/
 example : Brackets.Balanced [.left_parenthesis, .left_bracket, .right_bracket, .right_parenthesis] := by unfold Brackets.Balanced; decide
